@@ -31,6 +31,8 @@ func peerMain(args []string) int {
 	var h *sqlittle.DB
 	var held *sdb.Database
 	var env *Env
+	var eaten []int
+	var savedLimit syscall.Rlimit
 	reply := func(format string, a ...interface{}) {
 		s := fmt.Sprintf(format, a...)
 		s = strings.ReplaceAll(s, "\n", "\\n")
@@ -162,6 +164,32 @@ func peerMain(args []string) int {
 			if err := os.Chdir(arg); err != nil {
 				reply("err %v", err)
 				continue
+			}
+			reply("ok")
+		// use up every file descriptor this process may have (and give them back)
+		case "eatfds":
+			var lim syscall.Rlimit
+			syscall.Getrlimit(syscall.RLIMIT_NOFILE, &lim)
+			savedLimit = lim
+			if lim.Cur > 256 {
+				lim.Cur = 256
+				syscall.Setrlimit(syscall.RLIMIT_NOFILE, &lim)
+			}
+			for {
+				fd, err := syscall.Open("/dev/null", syscall.O_RDONLY, 0)
+				if err != nil {
+					break
+				}
+				eaten = append(eaten, fd)
+			}
+			reply("ok %d", len(eaten))
+		case "freefds":
+			for _, fd := range eaten {
+				syscall.Close(fd)
+			}
+			eaten = nil
+			if savedLimit.Cur > 0 {
+				syscall.Setrlimit(syscall.RLIMIT_NOFILE, &savedLimit)
 			}
 			reply("ok")
 		// a handle with both API levels, for whole dumps
